@@ -13,6 +13,7 @@ from .sched import Call
 from .seams import Controller, sql_label
 
 TIMEOUT = 30.0
+CURRENT = {'ctl': None}  # in a client process: its ChildCtl (for custom yield points and messages)
 
 
 def _send(fd, obj):
@@ -62,6 +63,13 @@ class ChildCtl(Controller):
             return
         self._yield(sql_label(label) if kind == 'sql' else '%s:%s' % (kind, label))
 
+    def custom_yield(self, label):
+        if self.active and not self.free:
+            self._yield(label)
+
+    def message(self, msg):
+        _send(self.ev_fd, msg)
+
     def sleep_event(self, d):
         if not self.active or self.free:
             return
@@ -86,7 +94,7 @@ class ProcRun:
         self.counter = 0
 
 
-def run_scheduled_procs(env, progs, schedule, setup, make_client, do_op, pid, max_steps=5000, final_ops=(), inspect=None):
+def run_scheduled_procs(env, progs, schedule, setup, make_client, do_op, pid, max_steps=5000, final_ops=(), inspect=None, on_message=None):
     """setup(path) -> shared (built before the fork: inherited by every child); make_client(path, shared, i) runs in
     child i and returns its client object.  Returns (calls, ProcRun)."""
     seams = get_seams(env)
@@ -110,6 +118,7 @@ def run_scheduled_procs(env, progs, schedule, setup, make_client, do_op, pid, ma
                         os.close(p.ev_fd)
                         os.close(p.go_fd)
                     ctl = ChildCtl(ev_w, go_r)
+                    CURRENT['ctl'] = ctl
                     seams.ctl = ctl
                     seams.clock.on_sleep = ctl.sleep_event
                     client = make_client(path, shared, i)
@@ -172,6 +181,8 @@ def run_scheduled_procs(env, progs, schedule, setup, make_client, do_op, pid, ma
                     return
                 elif kind == 'E':
                     raise HarnessError('client process %d raised %s' % (p.idx, msg[1]))
+                elif on_message is not None:
+                    on_message(p.idx, msg)
 
         steps = 0
         seg = 0
